@@ -60,13 +60,13 @@ def whOf (t : String) (ctl : CertT) : CertT :=
 
 /-- the least change of the fault function under which no enriching / authorizing webhook that is
     asked answers `ok`: wherever the trace shows such an answer, it becomes `deny` -/
-def standing (e : Env) (op : Op) (c : Cfg) (d : Durable) : Nat → Env
+def standing (e : Env) (op : Op) (c : Cfg) (d : Durable) (kinds : List Kind) : Nat → Env
   | 0 => e
   | fuel + 1 =>
     let log := (runOp e op c d).1.log
-    match log.findIdx? (fun ev => (ev.kind == .enrich || ev.kind == .authorize) && ev.out == .ok) with
+    match log.findIdx? (fun ev => kinds.contains ev.kind && ev.out == .ok) with
     | none => e
-    | some p => standing { e with f := fun n => if n = p then .deny else e.f n } op c d fuel
+    | some p => standing { e with f := fun n => if n = p then .deny else e.f n } op c d kinds fuel
 
 def evalRun (kv : List (String × String)) : Option String := do
   let op ← op? (← lookup kv "op")
@@ -80,7 +80,9 @@ def evalRun (kv : List (String × String)) : Option String := do
   let usable := (lookup kv "var").getD "-" != "badhook"
   -- a standing denial: every consulted enriching / authorizing webhook answers allow=false
   -- whenever asked, i.e. at each position where the fault-free trace has such a call
-  let whdeny := (lookup kv "whdeny").getD "0" != "0"
+  let whd := (lookup kv "whdeny").getD "0"
+  let whdeny := whd != "0"
+  let denyKinds : List Kind := if whd = "enrich" then [.enrich] else if whd = "authorize" then [.authorize] else [.enrich, .authorize]
   let e : Env := { f := faultFn fs, g := g, db := db, hooksUsable := usable }
   let nat (k : String) : Nat := ((lookup kv k).bind String.toNat?).getD 0
   let var := (lookup kv "var").getD "-"
@@ -95,7 +97,7 @@ def evalRun (kv : List (String × String)) : Option String := do
   let kindKnown := (lookup kv "ct").getD "all" != "kindlower"
   let c := c0.consulted ctl wh (var.startsWith "admin") kindKnown
   let d0 : Durable := {}
-  let e : Env := if whdeny then standing e op c d0 8 else e
+  let e : Env := if whdeny then standing e op c d0 denyKinds 8 else e
   let r := runOp e op c d0
   let d := r.1.d
   let cl := client op r
@@ -106,9 +108,10 @@ def evalRun (kv : List (String × String)) : Option String := do
   let cls (x : St × Bool) : String := if client op x = .error then "err" else "ok"
   let r2 := runOp e op c d
   let r3 := runOp okE op c r2.1.d
-  let r4 := runOp okE op c (restart db r3.1.d)
+  -- third replay: after a restart on the same database, or (var=real) after CA.Reload
+  let r4 := runOp okE op c (if var == "real" then reload r3.1.d else restart db r3.1.d)
   let reuse := if op.usesToken then
-      (if var == "real" then s!"{cls r2}/{cls r3}/-" else s!"{cls r2}/{cls r3}/{cls r4}") else "na"
+      s!"{cls r2}/{cls r3}/{cls r4}" else "na"
   -- without a database the token set lives in memory: no table to observe
   let head := s!"{clS} got={got} tok={b (d.tokenSpent && db)} stored={d.certs} data={d.datas}"
   let tail := if op = .acmeFinalize then s!" acme={d.acmeCerts} valid={b d.orderValid}" else s!" rev={b d.revoked} reuse={reuse}"
@@ -174,6 +177,9 @@ def evalSrc (fn : String) : String :=
     ",".intercalate ((hookControllers.map fun p => p.1 ++ "." ++ p.2.1 ++ "=" ++ p.2.2).toArray.qsort (· < ·)).toList
   | "@routes" =>
     ",".intercalate ((routeTable.map fun r => r.1 ++ ">" ++ r.2.1).toArray.qsort (· < ·)).toList
+  | "@reloadOptions" => ",".intercalate (reloadOptions.toArray.qsort (· < ·)).toList
+  | "@tokenIDs" =>
+    ",".intercalate ((tokenIDErrors.map fun p => p.1 ++ "=" ++ toString p.2.1 ++ (if p.2.2 then "+reuse" else "")).toArray.qsort (· < ·)).toList
   | "@scepTypes" =>
     let j (l : List String) := "+".intercalate (l.toArray.qsort (· < ·)).toList
     s!"challenged={j challengedTypes} csr={j csrTypes}"
